@@ -66,8 +66,20 @@ def ReqHdr.fields (r : ReqHdr) : List (Bytes × Bytes) :=
   (if r.cookies.isEmpty then [] else [(strCookie, requestCookieBytes r.cookies)]) ++
   (if r.connClose then [(strConnection, strClose)] else [])
 
+/-- the three bytes that cannot stand in the method or the request target: SP, CR, LF -/
+def lineSpecial (c : UInt8) : Bool := c == 32 || c == 13 || c == 10
+
+/-- second loop of `appendRequestLinePart`: SP, CR, LF as `%XX` (upper-case hex), every other byte as it is -/
+def reqLineTail : Bytes → Bytes
+  | [] => []
+  | c :: t => (if lineSpecial c then pctEnc c else [c]) ++ reqLineTail t
+
+/-- `appendRequestLinePart(nil, part)` (/repo 910b0dd): the prefix free of SP/CR/LF is copied, the rest goes byte by byte -/
+def reqLinePart (p : Bytes) : Bytes :=
+  p.takeWhile (fun c => !lineSpecial c) ++ reqLineTail (p.dropWhile (fun c => !lineSpecial c))
+
 def ReqHdr.startLine (r : ReqHdr) : Bytes :=
-  r.methodOrGet ++ [32] ++ (if r.uri.isEmpty then strSlash else r.uri) ++ [32] ++ strHTTP11
+  reqLinePart r.methodOrGet ++ [32] ++ reqLinePart (if r.uri.isEmpty then strSlash else r.uri) ++ [32] ++ strHTTP11
 
 /-- `RequestHeader.AppendBytes(nil)` -/
 def ReqHdr.bytes (r : ReqHdr) : Bytes := r.startLine ++ strCRLF ++ block r.fields
